@@ -571,4 +571,105 @@ theorem parse_ok_range {s : Str} {r : Parsed} (h : parse s = .ok r) : CostsInRan
     all_goals first | cases h | skip
     exact this
 
+/-! ## 9. what the parser allocates is bounded by its input -/
+
+theorem decodeChars_length : ∀ (cs : List Char) (bs : Bytes), decodeChars cs = some bs →
+    4 * bs.length ≤ 3 * cs.length
+  | [], bs, h => by simp only [decodeChars, Option.some.injEq] at h; subst h; simp
+  | [_], bs, h => by simp [decodeChars] at h
+  | [c0, c1], bs, h => by
+    simp only [decodeChars] at h
+    repeat' split at h
+    all_goals first | cases h | skip
+    simp
+  | [c0, c1, c2], bs, h => by
+    simp only [decodeChars] at h
+    repeat' split at h
+    all_goals first | cases h | skip
+    simp
+  | c0 :: c1 :: c2 :: c3 :: rest, bs, h => by
+    simp only [decodeChars] at h
+    split at h
+    · rename_i v0 v1 v2 v3 bs' _ _ _ _ hr
+      cases h
+      have := decodeChars_length rest bs' hr
+      simp only [List.length_cons]
+      omega
+    · cases h
+
+theorem splitOnAux_length (sep : Char) : ∀ (s cur : Str), ∀ seg ∈ splitOnAux sep s cur,
+    seg.length ≤ s.length + cur.length
+  | [], cur, seg, h => by
+    simp only [splitOnAux, List.mem_singleton] at h
+    subst h; simp
+  | c :: cs, cur, seg, h => by
+    simp only [splitOnAux] at h
+    split at h
+    · rcases List.mem_cons.mp h with h | h
+      · subst h; simp
+      · have := splitOnAux_length sep cs [] seg h
+        simp only [List.length_cons, List.length_nil] at this ⊢
+        omega
+    · have := splitOnAux_length sep cs (c :: cur) seg h
+      simp only [List.length_cons] at this ⊢
+      omega
+
+theorem splitOn_length (sep : Char) (s : Str) : ∀ seg ∈ splitOn sep s, seg.length ≤ s.length := by
+  intro seg h
+  simpa using splitOnAux_length sep s [] seg h
+
+/-- the two decoded byte strings of a parse state hold at most 3/4 · `N` bytes each -/
+def DecodedBounded (N : Nat) (r : Parsed) : Prop :=
+  (∀ b, r.salt = some b → 4 * b.length ≤ 3 * N) ∧ (∀ b, r.pwhash = some b → 4 * b.length ≤ 3 * N)
+
+theorem parseParams_decoded (ps : List Str) (acc r : Parsed) (h : parseParams ps acc = some r) :
+    r.salt = acc.salt ∧ r.pwhash = acc.pwhash := by
+  induction ps generalizing acc with
+  | nil => simp only [parseParams, Option.some.injEq] at h; subst h; exact ⟨rfl, rfl⟩
+  | cons p rest ih =>
+    rw [parseParams] at h
+    repeat' split at h
+    all_goals first
+      | cases h
+      | (have := ih _ h; exact this)
+
+theorem parseSegment_bounded (N : Nat) (acc r : Parsed) (s : Str) (hs : s.length ≤ N)
+    (hacc : DecodedBounded N acc) (h : parseSegment acc s = some r) : DecodedBounded N r := by
+  have hd : ∀ b, decodeChars s = some b → 4 * b.length ≤ 3 * N := fun b hb => by
+    have := decodeChars_length s b hb; omega
+  unfold parseSegment at h
+  repeat' split at h
+  all_goals first
+    | exact (fun hp => ⟨fun b hb => hacc.1 b (hp.1 ▸ hb), fun b hb => hacc.2 b (hp.2 ▸ hb)⟩)
+        (parseParams_decoded _ _ _ h)
+    | (cases h; exact hacc)
+    | (cases h; exact ⟨fun b hb => hd b hb, hacc.2⟩)
+    | (cases h; exact ⟨hacc.1, fun b hb => hd b hb⟩)
+    | cases h
+
+theorem parseSegments_bounded (N : Nat) (ss : List Str) (acc r : Parsed) (hss : ∀ s ∈ ss, s.length ≤ N)
+    (hacc : DecodedBounded N acc) (h : parseSegments ss acc = some r) : DecodedBounded N r := by
+  induction ss generalizing acc with
+  | nil => simp only [parseSegments, Option.some.injEq] at h; exact h ▸ hacc
+  | cons s rest ih =>
+    rw [parseSegments.eq_def] at h
+    simp only at h
+    split at h
+    · rename_i acc' hs
+      exact ih _ (fun s' hs' => hss s' (by simp [hs']))
+        (parseSegment_bounded N _ _ _ (hss s (by simp)) hacc hs) h
+    · cases h
+
+/-- an accepted string's decoded salt and hash hold at most 3/4 of the string's length each -/
+theorem parse_ok_alloc {s : Str} {r : Parsed} (h : parse s = .ok r) : DecodedBounded s.length r := by
+  unfold parse at h
+  split at h
+  · cases h
+  · rename_i r' hr
+    have := parseSegments_bounded s.length _ _ _ (splitOn_length '$' s)
+      ⟨(by intro b hb; cases hb), (by intro b hb; cases hb)⟩ hr
+    repeat' split at h
+    all_goals first | cases h | skip
+    exact this
+
 end DryocVerif.Model.PwhashStr
